@@ -470,7 +470,7 @@ func init() {
 		if !ok {
 			panic(unsupported("Sprintf with symbolic format"))
 		}
-		return e.sprintf(f, e.variadicArgs(a[1]), nil, false)
+		return e.sprintf(f, e.variadicArgs(a[1]), nil, e.cfg.LossyFmt)
 	})
 	reg("fmt.Sprint", func(e *Exec, fn *ssa.Function, a []Value) Value {
 		args := e.variadicArgs(a[0])
